@@ -25,6 +25,10 @@ use std::sync::{Arc, Mutex};
 mod util;
 #[path = "/verif/harness/common/wire.rs"]
 mod wire;
+// spec/CtlLoop.tla (C37): the wrapper's message loop in fine-grained steps.  Relative path: resolved next to this file, in the
+// shared tree and in a private workspace alike.
+#[path = "ctlloop.rs"]
+mod ctlloop;
 use util::{Rng, i, s};
 
 struct Rec<D: std::fmt::Debug + Copy + Send + 'static> {
